@@ -1027,10 +1027,20 @@ func (r *Run) rangeStmt(s *ast.RangeStmt, env *Env) ctl {
 		}
 	}
 	elems := r.listElems(xv, s.Pos(), elemT)
+	// range over an iterator function (iter.Seq[T], e.g. strings.SplitSeq): the single variable is the element
+	seqRange := false
+	if tv, ok := info.Types[s.X]; ok && tv.Type != nil {
+		if _, isFunc := tv.Type.Underlying().(*types.Signature); isFunc && s.Value == nil {
+			seqRange = true
+		}
+	}
 	for i, el := range elems {
 		e2 := newEnv(env)
 		if id, ok := s.Key.(*ast.Ident); ok && id.Name != "_" {
 			var kv Val = VInt{N: int64(i)}
+			if seqRange {
+				kv = el
+			}
 			if isMap {
 				kv = VSym{Key: "k(" + el.key() + ")", Typ: keyT}
 			}
@@ -1890,6 +1900,32 @@ func (r *Run) call(call *ast.CallExpr, env *Env) Val {
 			if v, ok := r.foldStrings(fn.Name(), call, env); ok {
 				return v
 			}
+			if fn.Name() == "ReplaceAll" && len(call.Args) == 3 {
+				// a constant template with a constant placeholder replaced by a (possibly symbolic) string:
+				// the constant pieces interleaved with the replacement's segments
+				if a, ok := r.eval(call.Args[0], env).(VStr); ok {
+					if b, ok := r.eval(call.Args[1], env).(VStr); ok {
+						if ac, ok := a.isConst(); ok {
+							if bc, ok := b.isConst(); ok && bc != "" {
+								repl, _ := toStr(r.eval(call.Args[2], env))
+								var out VStr
+								for i, piece := range strings.Split(ac, bc) {
+									if i > 0 {
+										out.Segs = append(out.Segs, repl.Segs...)
+									}
+									if piece != "" {
+										out.Segs = append(out.Segs, Seg{Const: piece})
+									}
+								}
+								if len(out.Segs) == 0 {
+									return constStr("")
+								}
+								return foldConsts(out)
+							}
+						}
+					}
+				}
+			}
 			if fn.Name() == "Join" && len(call.Args) == 2 {
 				if l, ok := r.eval(call.Args[0], env).(VList); ok && l.Elems != nil {
 					if sep, ok := r.eval(call.Args[1], env).(VStr); ok {
@@ -1964,6 +2000,26 @@ func (r *Run) call(call *ast.CallExpr, env *Env) Val {
 						if ac, ok := a.isConst(); ok {
 							n := strings.IndexByte(ac, byte(b.N))
 							return VInt{N: int64(n), Label: fmt.Sprint(n)}
+						}
+					}
+				}
+			}
+			if (fn.Name() == "SplitSeq" || fn.Name() == "SplitAfterSeq") && len(call.Args) == 2 {
+				// the iterator forms: ranged over like the slice Split returns
+				if a, ok := r.eval(call.Args[0], env).(VStr); ok {
+					if b, ok := r.eval(call.Args[1], env).(VStr); ok {
+						if ac, ok := a.isConst(); ok {
+							if bc, ok := b.isConst(); ok {
+								l := VList{Key: "split", Elems: []Val{}}
+								parts := strings.Split(ac, bc)
+								if fn.Name() == "SplitAfterSeq" {
+									parts = strings.SplitAfter(ac, bc)
+								}
+								for _, p := range parts {
+									l.Elems = append(l.Elems, constStr(p))
+								}
+								return l
+							}
 						}
 					}
 				}
